@@ -17,6 +17,11 @@ CHECKS = {}
 def add(id, level, text, note, technique):
     CHECKS[id] = (level, text, note, technique)
 
+add("C01", "exploration",
+    "seeded test blocks of every executor type on a funded parent state are executed by 4 (quick) / 8 (thorough) sequential replica incarnations of the real node that differ in seeded map-iteration order (instrumented build), wall clock (epoch shift, per-call drift), cold boot from the parent's disk image vs warm node (seeded first-touch reads, executed-and-discarded block); state root, evicted list, executed list and every receipt (status, text, logs, gas, contract address) must be byte-identical; then proposer-casts / other-incarnation-adds through the exported chain API. Sampling, not proof.",
+    "trusted: map-order instrumentation (every range over a map / sync.Map in the anchored packages is rewritten to a seeded permutation - any order is a legal Go execution), simulated clock hook, in-process replica incarnations with process-local caches reset; asynchronous casting goroutine (Proposal020) is not scheduled by the simulator, plans use the synchronous casting configuration",
+    "deterministic simulation: replica twin runs under seeded map order / clock / cache warmness + cast-verify protocol path")
+
 add("C02", "exploration",
     "seeded search over operation histories (update/delete/get/hash/commit/warm+cold reopen/cache-limit/iterate, 1-2 tries on one node database) with one-shot disk read faults on the simulated disk; after every operation the real trie is compared with an independent Yellow-Paper MPT root and a map model. Sampling, not proof: a clean batch is evidence for the histories explored.",
     "trusted: keccak256 (x/crypto), the harness's own RLP/hex-prefix reference (model/mpt.go), simdisk.KV; the trie, hasher, node database and iterator are the real code",
